@@ -59,6 +59,9 @@ var quiet = func() logrus.FieldLogger {
 const RawConfig = `global:
   scrape_interval: 15s
   scrape_timeout: 10s
+rule_files:
+- rules/*.yml
+- /etc/prometheus/alerts/*.yaml
 scrape_configs:
 - job_name: j0
   metric_relabel_configs:
@@ -800,8 +803,14 @@ func NewWorld(c *Case) (*World, error) {
 		w.order = append(w.order, t.Hash)
 	}
 	w.rebuildActive()
+	// the coordinator reads its configuration from a file (--config.file), in a directory of its own
 	cm := prom.NewConfigManager()
-	if err := cm.ReloadFromRaw([]byte(RawConfig)); err != nil {
+	coordFile := filepath.Join(root, "coordinator", "etc", "prometheus.yml")
+	_ = os.MkdirAll(filepath.Dir(coordFile), 0755)
+	if err := ioutil.WriteFile(coordFile, []byte(RawConfig), 0644); err != nil {
+		return nil, err
+	}
+	if err := cm.ReloadFromFile(coordFile); err != nil {
 		return nil, err
 	}
 	w.coordCfg = cm.ConfigInfo()
